@@ -6,6 +6,7 @@ import z3
 from cxxvc.kernel import Kernel, LoopSpec, Lemma
 from cxxvc.interp import Obj, Ptr, Loc, ArrLoc, Opt, Gap, MAX_DT, ExcVal, VOID, ThrowEx
 from cxxvc import extract, models
+from cxxvc.native import NativeCheck
 from cxxvc.models import Vec
 from contracts.c03_node import GraphGhost
 
@@ -2259,3 +2260,38 @@ class RemoveEntryAtSlot(MapKernel):
 
 
 KERNELS.append(RemoveEntryAtSlot)
+
+
+
+# ------------------------------------------------------------------ bounded stand-in: map_ equals the function run per key
+#
+# The kernels above cover reconciliation, slot selection, scheduling and teardown function by function.  The pieces between
+# them that are bit-twiddling or ops-table code (materialize_map_evaluation_slots' word scan, input binding, output
+# publication) are exercised by running the real map_ over enumerated key histories against the per-key oracle.
+
+
+class MapEnumeration(NativeCheck):
+    kid = "native:c10_map"
+    property_ids = ("C10",)
+    source = "native/bounded/c10_map.cpp"
+    title = "the tick stream of map_(f, dict) equals running f independently per key (f counts its own evaluations)"
+    bound_text = ("bounded: eval_node<map_>(KeyCounter, TSD<Int,TS<Int>>) with f(key, ts) = key*10^6 + ts*100 + evaluations of this "
+                  "instance, compared per cycle (Value::equals on the output delta) with the per-key oracle.  quick: every history "
+                  "of 3 cycles over 3 keys (per key and cycle nothing / set / remove-if-live: 19 683), the sparse-slot family for "
+                  "N = 70 and 130 keys (all but a subset of {0, 63, 64, N-1} removed, every subset of the survivors ticking, then "
+                  "new keys: 2 x 80), 2 000 random histories of 4 cycles over 6 keys; thorough: 4 cycles over 3 keys (531 441, "
+                  "16 shards), 50 000 random histories of 6 cycles")
+    functions = ("map_node.cpp: map_evaluate_impl / map_reconcile_keys / prepare_map_evaluation_slots / "
+                 "materialize_map_evaluation_slots / create_entry_at_slot / remove_entry_at_slot (whole node)",
+                 "higher_order_impl.h: map_ wiring", "nested graph child evaluation and output forwarding")
+
+    def runs(self, tier):
+        if tier == "thorough":
+            return [(["small", "4"], {"SHARD": "%d/16" % i}) for i in range(16)] + [(["random", "6", "50000", "9"], {}),
+                                                                                    (["sparse", "70"], {}), (["sparse", "130"], {}),
+                                                                                    (["sparse", "200"], {})]
+        return [(["small", "3"], {"SHARD": "%d/4" % i}) for i in range(4)] + [(["sparse", "70"], {}), (["sparse", "130"], {}),
+                                                                             (["random", "4", "2000", "3"], {})]
+
+
+NATIVE = globals().get("NATIVE", []) + [MapEnumeration]
